@@ -40,7 +40,8 @@ def apply_canary(name):
 
 
 def jobs(tier, seed):
-    out = [{"name": "array-caches", "kind": "arrays", "cost": 20}]
+    out = [{"name": "array-caches", "kind": "arrays", "cost": 20},
+           {"name": "array-cache-keys", "kind": "keys", "cost": 40}]
     if tier == "thorough":
         out.append({"name": "array-caches-grid1000", "kind": "arrays1000", "cost": 500})
     for kern in ("semi", "fully"):
@@ -54,6 +55,7 @@ def jobs(tier, seed):
                 "clear": False, "n": 2, "cost": 60})
     out.append({"name": "canary-two_array_key_uses_first_only", "canary": "two_array_key_uses_first_only", "kind": "arrays", "cost": 20})
     out.append({"name": "canary-list_key_drops_duplicates", "canary": "list_key_drops_duplicates", "kind": "arrays", "cost": 20})
+    out.append({"name": "canary-keys-list_key_drops_duplicates", "canary": "list_key_drops_duplicates", "kind": "keys", "cost": 20})
     return out
 
 
@@ -258,6 +260,8 @@ def work(job):
     CTX.sentinel_mode = "assume"
     if job["kind"] == "arrays":
         funcs = _arrays(res)
+    elif job["kind"] == "keys":
+        funcs = _keys(res)
     elif job["kind"] == "arrays1000":
         funcs = _arrays(res, big=True)
     else:
@@ -292,6 +296,91 @@ def _big_arr(tag, G=1000):
     for j, g in enumerate((1, 4) if tag == "R" else (0, 3) if tag == "Q" else (2, 5)):
         a[0, g] = Log(V.var(f"{tag}_0_{g}"))
     return a
+
+
+class SymDigest:
+    """Digest of a symbolic array for the key-injectivity job: equal exactly when the arrays are equal, decided by the solver on
+    the current path (a fork when both are possible).  All digests of one shape share a hash, so sets, tuples and the lru
+    dictionary fall through to __eq__; the order used by sort() is structural."""
+    def __init__(self, arr):
+        arr = np.asarray(arr)
+        self.shape = arr.shape
+        self.vals = list(arr.flat)
+        self.skey = patcher.digest_stub(arr) if arr.dtype == object else repr(arr.tolist())
+
+    def __hash__(self):
+        return hash(self.shape)
+
+    def __eq__(self, o):
+        if not isinstance(o, SymDigest) or self.shape != o.shape:
+            return False
+        if self.skey == o.skey:
+            return True
+        claims = []
+        for x, y in zip(self.vals, o.vals):
+            ex, ey = _e(x), _e(y)
+            if not (isinstance(ex, V) and isinstance(ey, V)):
+                if ex != ey:
+                    return False
+                continue
+            c = ex.eq(ey)
+            if c is False:
+                return False
+            if c is not True:
+                claims.append(c)
+        if not claims:
+            return True
+        return CTX.decide(z3.And(claims))
+
+    def __ne__(self, o):
+        return not self.__eq__(o)
+
+    def __lt__(self, o):
+        return self.skey < o.skey
+
+
+# pairs / lists of independent symbolic arrays: a stale hit needs key(args) == key(args') for different arguments, which the
+# solver looks for (the digest itself is assumed injective)
+KEY_HISTORIES = [[("C", "AB"), ("C", "CD")], [("C", "AB"), ("C", "BA"), ("C", "CA")], [("S", "AB"), ("S", "CD")], [("S", "A"), ("S", "CC"), ("S", "C")],
+                 [("S", "AAB"), ("S", "CDD")]]
+
+
+def _keys(res):
+    import phyclone.tree.utils as tu
+    import phyclone.utils.utils as uu
+    arrs = {k: _sym_arr(k, 1, 2) for k in "ABCD"}
+
+    def run():
+        old = uu.xxh3_64_hexdigest
+        uu.xxh3_64_hexdigest = SymDigest
+        try:
+            for h in KEY_HISTORIES:
+                def one():
+                    patcher.reset_caches()
+                    sh = Shadow()
+                    sh.install()
+                    try:
+                        for kind, spec in h:
+                            if kind == "S":
+                                tu.compute_log_S([arrs[c] for c in spec])
+                            else:
+                                tu._convolve_two_children(arrs[spec[0]], arrs[spec[1]])
+                    finally:
+                        sh.remove()
+                    return sh
+                for p in CTX.explore(one):
+                    sh = p.result
+                    res["histories"] += 1
+                    res["calls"] += sh.calls
+                    res["hits"] += sh.hits
+                    if not _discharge(res, sh, p.pc, "keys", {"history": [f"{k}{s}" for k, s in h]}):
+                        return
+        finally:
+            uu.xxh3_64_hexdigest = old
+    _, funcs = patcher.entered_functions(run)
+    res["sample"] = {"key_histories": [[f"{k}({','.join(s)})" for k, s in h] for h in KEY_HISTORIES], "paths": res["histories"],
+                     "shadowed_calls": res["calls"], "cache_hits": res["hits"]}
+    return funcs
 
 
 BIG_CALLS = [("C", "RQ"), ("S", "RQ"), ("C", "QR")]      # each 1000-point symbolic convolution costs minutes: the shortest history with a hit after S
@@ -422,8 +511,10 @@ def replay(case):
             f.cache_clear()
         clear_proposal_dist_caches()
         sh = Shadow()
-        if job["kind"] in ("arrays", "arrays1000"):
-            if job["kind"] == "arrays1000":
+        if job["kind"] in ("arrays", "arrays1000", "keys"):
+            if job["kind"] == "keys":
+                arrs = {k: np.log(np.array([[float(Fraction(vals.get(f"{k}_0_{g}", 1 + g + ord(k) % 3))) for g in range(2)]])) for k in "ABCD"}
+            elif job["kind"] == "arrays1000":
                 arrs = {}
                 for k in "RQT":
                     a = np.zeros((1, 1000))
